@@ -30,5 +30,91 @@ class nodes_connected:
 class get_coord_neighbors:
     params = dict(self=T.Maze(), c=T.Coord)
     requires = ["self.connection_list.shape[0] == 2", "in_grid(self, c)"]
-    result = T.Int  # placeholder, refined below
+    ensures = {
+        # the neighbour list and the connection structure describe the same graph
+        "C13.members": "forall(lambda i, j: ((i, j) in result) == edge(self, c, (i, j)), None, None)",
+        "C13.once": "distinct_rows(result)",
+        "C13.atmost4": "nrows(result) <= 4",
+    }
+    result = T.GuardedRowsT(4, 2)
     props = ["C13"]
+
+
+@contract(F, "LatticeMaze.is_valid_path")
+class is_valid_path:
+    params = dict(self=T.Maze(), path=T.GridT("int", [None, 2]), empty_is_valid=T.Bool)
+    requires = ["self.connection_list.shape[0] == 2"]
+    ensures = {
+        "C13.valid_path": """result == ite(len(path) == 0, empty_is_valid,
+            forall(lambda k: in_grid(self, path[k]), (0, len(path)))
+            and forall(lambda k: edge(self, path[k], path[k + 1]), (0, len(path) - 1)))""",
+    }
+    loops = {
+        0: Loop(
+            head="for i in range(len(path) - 1)",
+            havoc=dict(),
+            inv={"prefix-connected": "forall(lambda k: edge(self, path[k], path[k + 1]), (0, _k))"},
+        )
+    }
+    result = T.Bool
+    props = ["C13"]
+
+
+_DEG = (
+    "ite(edge(self, (i, j), (i + 1, j)), 1, 0) + ite(edge(self, (i, j), (i - 1, j)), 1, 0)"
+    " + ite(edge(self, (i, j), (i, j + 1)), 1, 0) + ite(edge(self, (i, j), (i, j - 1)), 1, 0)"
+)
+
+
+@contract(F, "LatticeMaze.coord_degrees")
+class coord_degrees:
+    params = dict(self=T.Maze())
+    lets = dict(R="self.connection_list.shape[1]", C="self.connection_list.shape[2]")
+    # without well-formedness a boundary bit would be counted that no other view sees; wf is what C01 guarantees
+    requires = ["wf(self)"]
+    ensures = {
+        "C13.degree": f"forall(lambda i, j: result[i, j] == {_DEG}, (0, R), (0, C))",
+        "C13.degree.shape": "result.shape == (R, C)",
+    }
+    result = lambda env: T.GridT("int", [env["R"], env["C"]])
+    props = ["C13"]
+
+
+@contract(F, "LatticeMaze.gen_connected_component_from")
+class gen_connected_component_from:
+    params = dict(self=T.Maze(), c=T.Coord)
+    requires = ["in_grid(self, c)"]
+    ensures = {
+        "C13.component": "forall(lambda i, j: ((i, j) in result) == reach(self, c, (i, j)), None, None)",
+        "C13.component.once": "distinct_rows(result)",
+    }
+    loops = {
+        0: Loop(
+            head="while stack",
+            havoc=dict(stack=T.ListT(T.Coord), visited=T.SetT(2)),
+            inv={
+                "stack-reachable": "forall(lambda k: in_grid(self, stack[k]) and reach(self, c, stack[k]), (0, len(stack)))",
+                "visited-reachable": "forall(lambda i, j: implies((i, j) in visited, reach(self, c, (i, j))), None, None)",
+                "frontier": "forall(lambda i, j, a, b: implies((i, j) in visited and edge(self, (i, j), (a, b)),"
+                " (a, b) in visited or exists(lambda k: stack[k][0] == a and stack[k][1] == b, (0, len(stack)))), None, None, None, None)",
+                "start-kept": "(c[0], c[1]) in visited or exists(lambda k: stack[k][0] == c[0] and stack[k][1] == c[1], (0, len(stack)))",
+            },
+        )
+    }
+    loops[1] = Loop(
+        head="for neighbor in neighbors",
+        cut=True,
+        havoc=dict(stack=T.ListT(T.Coord)),
+        inv={
+            "stack-reachable": loops[0].inv["stack-reachable"],
+            "frontier-others": "forall(lambda i, j, a, b: implies((i, j) in visited and not (i == current_node[0] and j == current_node[1])"
+            " and edge(self, (i, j), (a, b)),"
+            " (a, b) in visited or exists(lambda k: stack[k][0] == a and stack[k][1] == b, (0, len(stack)))), None, None, None, None)",
+            "frontier-current": "all_cands(neighbors, _m, lambda g, v: implies(g, (v[0], v[1]) in visited"
+            " or exists(lambda k: stack[k][0] == v[0] and stack[k][1] == v[1], (0, len(stack)))))",
+            "start-kept": loops[0].inv["start-kept"],
+        },
+    )
+    exit_lemmas = ["reach_induction(self, c, lambda v: v in final(visited))"]
+    result = T.ListT(T.CoordTup)  # callers see a duplicate-free list of the component's cells
+    props = ["C13", "C12"]
